@@ -166,8 +166,8 @@ RULES.append(("C02.i", "must-pass-through: no path around the effects this prope
 
 def rule_commit(ctx):
     from . import mustpass
-    for g, floor in [('mailbox-signals', 12), ('ports', 80), ('lockfree', 25)]:
-        mustpass.commit_group(ctx, g, floor)
+    for spec in [('mailbox-signals', 12), ('ports', 80), ('lockfree', 9, r'^channel::queue::|^util::(task_set|cached_rw_lock)::')]:
+        mustpass.commit_group(ctx, *spec)
 
 
 RULES.append(("C02.j", "branch-commit: between the decision to perform an effect and the effect there is no way out", rule_commit))
